@@ -19,7 +19,25 @@ from ..common import fingerprint, library_raised
 from ..tlc import TLCError
 
 PROPS = ["ArgumentsUnchanged", "SameCallTwiceSameResult", "ResultIsNew"]
-SEED_NAMES = ["C1", "C2", "C3", "G1", "G2", "G3", "T1", "T2", "S1", "S2", "M1", "D1", "D2", "W1", "W2"]
+SEED_NAMES = ["C1", "C2", "C3", "G1", "G2", "G3", "T1", "T2", "S1", "S2", "M1", "D1", "D2", "W1", "W2", "D3"]
+# the symbol maps handed to every bind call are the caller's objects too: ONE dictionary per kind of call lives through the
+# whole history, carries entries the receiver does not use, and is snapshotted like every live object
+_MAPS = {}
+
+
+def shared_maps(reset=False):
+    import sympy
+
+    if reset or not _MAPS:
+        th = sympy.Symbol("theta")
+        _MAPS.clear()
+        _MAPS["gate"] = {th: 0.7, sympy.Symbol("unused_1"): 1.0, sympy.Symbol("b"): 0.25}
+        _MAPS["wf"] = {th: 0.5, sympy.Symbol("unused_2"): 2.0}
+    return _MAPS
+
+
+def maps_fingerprint():
+    return tuple((k, tuple(sorted((str(s_), float(v_)) for s_, v_ in m.items()))) for k, m in sorted(shared_maps().items()))
 
 
 def make_seeds():
@@ -46,7 +64,10 @@ def make_seeds():
     D2 = MeasurementOutcomeDistribution({(0, 1): 0.25, (1, 0): 0.75})
     W1 = Wavefunction(np.array([0.5, 0.5j, -0.5, 0.5], dtype=complex))
     W2 = Wavefunction([th, 0.5, 0.5, sympy.Symbol("b")])
-    return [C1, C2, C3, G1, G2, G3, T1, T2, S1, S2, M1, D1, D2, W1, W2]
+    with warnings.catch_warnings():
+        warnings.simplefilter("ignore")
+        D3 = MeasurementOutcomeDistribution({(0, 0): 2.0, (0, 1): 6.0, (1, 1): 0.0}, normalize=False)
+    return [C1, C2, C3, G1, G2, G3, T1, T2, S1, S2, M1, D1, D2, W1, W2, D3]
 
 
 _ISING = []
@@ -76,7 +97,11 @@ def perform(op, a, tmp):
     if op == "c_append":
         return a[0] + a[1](*range(a[1].num_qubits))
     if op == "c_bind":
-        return a[0].bind({th: 0.7})
+        return a[0].bind(shared_maps()["gate"])
+    if op in ("d_copy", "d_copy_n"):
+        from orquestra.quantum.distributions import MeasurementOutcomeDistribution
+
+        return MeasurementOutcomeDistribution(a[0].distribution_dict)
     if op == "c_inverse":
         return a[0].inverse()
     if op == "c_controlled":
@@ -96,7 +121,7 @@ def perform(op, a, tmp):
     if op == "g_power":
         return a[0].power(2)
     if op == "g_bind":
-        return a[0].bind({th: 0.7})
+        return a[0].bind(shared_maps()["gate"])
     if op == "g_replace":
         return a[0].replace_params(tuple(0.9 for _ in a[0].params))
     if op == "g_matrix":
@@ -151,7 +176,7 @@ def perform(op, a, tmp):
     if op == "w_outcome":
         return a[0].get_outcome_probs()
     if op == "w_bind":
-        return a[0].bind({th: 0.5})
+        return a[0].bind(shared_maps()["wf"])
     if op == "w_sim":
         return SymbolicSimulator(seed=3).get_wavefunction(a[0], initial_state=a[1].amplitudes)
     if op == "w_save":
@@ -191,6 +216,8 @@ def _replay_subtree(ctx, case):
     counts = {"calls": 0, "raised": 0}
     pool = make_seeds()
     ising()
+    shared_maps(reset=True)
+    maps0 = maps_fingerprint()
     fps = [fingerprint(o) for o in pool] + [fingerprint(ising())]
     results = {}  # pool index -> fingerprint of the result object
 
@@ -211,6 +238,9 @@ def _replay_subtree(ctx, case):
             res = None
             counts["raised"] += 1
         after = [fingerprint(o) for o in pool] + [fingerprint(ising())]
+        if maps_fingerprint() != maps0:
+            fails.append(("mutated:map:" + e["op"], "history [%s]: the symbol map passed to the call (it carries entries the receiver does not use, and is reused by the caller) was modified: now %s" % (desc[-600:], {k_: {str(s_): v_ for s_, v_ in m_.items()} for k_, m_ in shared_maps().items()})))
+            return False
         changed = [i for i, (x, y) in enumerate(zip(fps, after)) if x != y]
         if changed:
             names = [describe(e["pre"][i]["v"]) if i < len(e["pre"]) else "the operator passed to the query" for i in changed]
@@ -255,8 +285,8 @@ def run(ctx):
     quick = ctx.tier == "quick"
     mc = 2 if quick else 3
     sel = "<-OpAll"
-    ctx.bounds = {"MaxCalls": mc, "operations": 39, "seeds": len(SEED_NAMES), "note": "thorough: depth 3 over a reduced operation set"}
-    consts = dict(MaxCalls=mc, OpSel=sel if quick else "{1, 3, 4, 9, 11, 15, 17, 19, 26, 27, 30, 31, 32, 33, 35, 38}", Emitting=True)
+    ctx.bounds = {"MaxCalls": mc, "operations": 41, "seeds": len(SEED_NAMES), "note": "thorough: depth 3 over a reduced operation set"}
+    consts = dict(MaxCalls=mc, OpSel=sel if quick else "{1, 3, 4, 9, 11, 15, 17, 19, 26, 27, 30, 31, 32, 33, 35, 38, 40}", Emitting=True)
     res = ctx.tlc("ValueSemantics", constants=consts, invariants=["WellTyped"], properties=PROPS, action_constraints=["Emit"], coverage=False, timeout=3000)
     edges = res.emitted
     if not quick:
@@ -267,7 +297,7 @@ def run(ctx):
         raise TLCError("ValueSemantics exported only %d calls" % len(edges))
     tree = Tree(edges)
     _TREE[0] = tree
-    init = [{"k": k, "v": {"o": n, "a": []}} for k, n in zip(["circ"] * 3 + ["gate"] * 3 + ["pauli"] * 4 + ["meas"] + ["dist"] * 2 + ["wf"] * 2, SEED_NAMES)]
+    init = [{"k": k, "v": {"o": n, "a": []}} for k, n in zip(["circ"] * 3 + ["gate"] * 3 + ["pauli"] * 4 + ["meas"] + ["dist"] * 2 + ["wf"] * 2 + ["udist"], SEED_NAMES)]
     first = tree.out.get(json.dumps([init, {"n": 0, "ev": {"op": "none", "args": [], "res": 0, "rep": False}}], sort_keys=True), [])
     if len(first) < 50:
         raise TLCError("only %d first-level calls found in the exported graph" % len(first))
